@@ -1,6 +1,8 @@
 import H2V.Lemmas.ConnHttpPMain
 import H2V.Lemmas.ConnHttpPSend
 import H2V.Lemmas.ConnHttpPCl
+import H2V.Lemmas.ConnHttpPData
+import H2V.Lemmas.ConnHttpPWire
 import H2V.Model.ConnDriver
 /-
   C13 (ConnHttpP), part 13 — witnesses: concrete wire bytes through `decode_frame` and the stream layer of
@@ -112,7 +114,7 @@ theorem split_malformed_block_rejected :
     Spec.Http.common (ghostNext (ghostNext [] rd0 splitMalformed1) (decodeFrame rd0 splitMalformed1).1 splitMalformed2)
       = ["connection-specific-field"] := by decide +kernel
 
-/-! ### N6: trailers larger than SETTINGS_MAX_HEADER_LIST_SIZE are delivered truncated -/
+/-! ### N6 (repaired): trailers larger than SETTINGS_MAX_HEADER_LIST_SIZE were delivered truncated -/
 
 def rd200 : Reader := rd0.setMaxHeaderListSize 200
 
@@ -124,12 +126,18 @@ def bigTrailers : Bytes :=
   [0, 0, 151, 1, 5, 0, 0, 0, 1] ++ [0, 3, 120, 45, 97, 20] ++ List.replicate 20 97 ++
     [0, 3, 120, 45, 98, 120] ++ List.replicate 120 98
 
-theorem oversize_trailers_truncated_counterexample :
+/-- before the repair of N6 these trailers were handed over without `x-b`; now the block is flagged
+    over-size, no `trailers` event is queued (the queue still holds just the request), and the stream is
+    reset with PROTOCOL_ERROR -/
+theorem oversize_trailers_rejected :
     ((hdrOf rd200 postFrame).bind fun h =>
-      (queuesAfter (srv0.recvHeaders h).1 (decodeFrame rd200 postFrame).1 bigTrailers).map fun q =>
-        q.map fun evs => evs.map fun ev => match ev with
-          | .trailers f => some (f.map (·.1))
-          | _ => none) = some [[none, some [[120, 45, 97]]]] ∧
+      (hdrOf (decodeFrame rd200 postFrame).1 bigTrailers).map fun t =>
+        (t.isOverSize, ((srv0.recvHeaders h).1.recvHeaders t).1.store.slab.map fun st =>
+          (st.state.isReset, st.pendingRecv.length))) = some (true, [(true, 1)]) ∧
+    ((hdrOf rd200 postFrame).bind fun h =>
+      (hdrOf (decodeFrame rd200 postFrame).1 bigTrailers).map fun t =>
+        ((srv0.recvHeaders h).1.recvHeaders t).1.store.slab.map fun st => st.pendingSend) =
+      some [[.reset Conn.PROTOCOL_ERROR]] ∧
     (ghostNext [] (decodeFrame rd200 postFrame).1 bigTrailers).map (·.1) = [[120, 45, 97], [120, 45, 98]] := by
   decide +kernel
 
@@ -177,5 +185,87 @@ theorem send_body_beyond_content_length_counterexample :
     r.2.toOption = some (0, false) ∧ (r.1.refSendData 0 10 true).2.toOption = some () ∧
       (r.1.refSendData 0 0 true).2.toOption = some () := by
   decide +kernel
+
+
+/-! ### refused messages fail the stream (witnesses for the hypotheses of `refused_…_fails`) -/
+
+def errOf {α : Type} : Except PErr α → Option PErr
+  | .error e => some e
+  | .ok _ => none
+
+def stateErrOf : RecvHeadersRes → Option PErr
+  | .state e => some e
+  | _ => none
+
+/-- a request head carrying `:status` (`82 86 84 41 01 61 88`) -/
+def statusReqFrame : Bytes := [0, 0, 7, 1, 5, 0, 0, 0, 1, 0x82, 0x86, 0x84, 0x41, 1, 97, 0x88]
+
+/-- `Recv::recv_headers` refuses it with a stream error; after `Inner::recv_headers` the stream is reset
+    (state `Closed(Error(Reset(Conn.PROTOCOL_ERROR, Library)))`), RST_STREAM is queued, nothing is handed over -/
+theorem status_in_request_refused :
+    ((hdrOf rd0 statusReqFrame).map fun h => stateErrOf ((rhEntry srv0 h).1.recvRecvHeaders 0 h).2) =
+      some (some (.reset 1 Conn.PROTOCOL_ERROR .library)) ∧
+    ((hdrOf rd0 statusReqFrame).map fun h => ((rhEntry srv0 h).1.stream 0).state.isRecvHeaders) = some true ∧
+    ((hdrOf rd0 statusReqFrame).map fun h => (srv0.recvHeaders h).1.store.slab.map fun st => st.state.isReset) = some [true] ∧
+    ((hdrOf rd0 statusReqFrame).map fun h => (srv0.recvHeaders h).1.store.slab.map fun st => st.pendingRecv) = some [[]] ∧
+    ((hdrOf rd0 statusReqFrame).map fun h => (srv0.recvHeaders h).1.store.slab.map fun st => st.pendingSend) =
+      some [[.reset Conn.PROTOCOL_ERROR]] ∧
+    Spec.Http.request (fieldsOf rd0 statusReqFrame) false = ["status-in-request"] := by decide +kernel
+
+/-- with `content-length: 5` announced, a 6-octet DATA frame is refused with a stream error, and so is
+    END_STREAM after 4 octets -/
+theorem data_against_content_length_witness :
+    ((hdrOf rd0 twoClFrame).map fun h =>
+      errOf ((srv0.recvHeaders h).1.recvRecvData 0 [1, 2, 3, 4, 5, 6] false none).2) =
+        some (some (.reset 1 Conn.PROTOCOL_ERROR .library)) ∧
+    ((hdrOf rd0 twoClFrame).map fun h =>
+      errOf ((srv0.recvHeaders h).1.recvRecvData 0 [1, 2, 3, 4] true none).2) =
+        some (some (.reset 1 Conn.PROTOCOL_ERROR .library)) ∧
+    ((hdrOf rd0 twoClFrame).map fun h => ((srv0.recvHeaders h).1.stream 0).state.isLocalError) = some false := by
+  decide +kernel
+
+
+def pollErr : Streams.PollData → Option PErr
+  | .err e => some e
+  | _ => none
+
+/-- … and the application's `poll_data` on that stream answers the reset error -/
+theorem refused_head_poll_witness :
+    ((hdrOf rd0 statusReqFrame).map fun h => pollErr ((srv0.recvHeaders h).1.recvPollData 0 "b0").2) =
+      some (some (.reset 1 Conn.PROTOCOL_ERROR .library)) := by decide +kernel
+
+/-- POST http://a/ with `content-length: 5`, no END_STREAM -/
+def oneClFrame : Bytes :=
+  [0, 0, 24, 1, 4, 0, 0, 0, 1, 0x83, 0x86, 0x84, 0x41, 1, 97,
+   0, 14, 99, 111, 110, 116, 101, 110, 116, 45, 108, 101, 110, 103, 116, 104, 1, 53]
+
+/-- the announced length is what the ledger starts from; trailers right after the head (no DATA) are
+    refused with a stream error -/
+theorem content_length_witness :
+    Spec.Http.contentLength (fieldsOf rd0 oneClFrame) = some (some 5) ∧
+    ((hdrOf rd0 oneClFrame).map fun h => clOf (rhEntry srv0 h).1 0) = some (some .omitted) ∧
+    ((hdrOf rd0 oneClFrame).map fun h => ((rhEntry srv0 h).1.recvRecvHeaders 0 h).2.isOk) = some true ∧
+    ((hdrOf rd0 oneClFrame).map fun h => clOf (srv0.recvHeaders h).1 0) = some (some (.remaining 5)) ∧
+    ((hdrOf rd0 oneClFrame).map fun h => ((srv0.recvHeaders h).1.stream 0).state.isRecvHeaders) = some false ∧
+    ((hdrOf rd0 oneClFrame).map fun h =>
+      errOf ((srv0.recvHeaders h).1.recvRecvTrailers 0 { sid := 1, eos := true, status := none }).2) =
+        some (some (.reset 1 Conn.PROTOCOL_ERROR .library)) := by decide +kernel
+
+
+/-- a valid request cut into HEADERS[`82 86 84`] + CONTINUATION[`41`] + CONTINUATION(END_HEADERS)[`01 61`]
+    (the last cut falls inside the `:authority` literal) -/
+def cut1 : Bytes := [0, 0, 3, 1, 1, 0, 0, 0, 1, 0x82, 0x86, 0x84]
+def cut2 : Bytes := [0, 0, 1, 9, 0, 0, 0, 0, 1, 0x41]
+def cut3 : Bytes := [0, 0, 2, 9, 4, 0, 0, 0, 1, 1, 97]
+
+/-- the second ghost collects exactly the concatenation of the fragments, the first ghost the fields of
+    its decoding, and the block is delivered -/
+theorem fragmented_block_witness :
+    (wireNext (runFrames (rd0, [], none) [cut1, cut2]).2.2 (runFrames (rd0, [], none) [cut1, cut2]).1 cut3).map (·.2)
+      = some [0x82, 0x86, 0x84, 0x41, 1, 97] ∧
+    ghostNext (runFrames (rd0, [], none) [cut1, cut2]).2.1 (runFrames (rd0, [], none) [cut1, cut2]).1 cut3 =
+      (rd0.hpack.decode [0x82, 0x86, 0x84, 0x41, 1, 97]).fields ∧
+    (dfBlock (decodeFrame (runFrames (rd0, [], none) [cut1, cut2]).1 cut3).2).isSome = true ∧
+    Spec.Http.request (rd0.hpack.decode [0x82, 0x86, 0x84, 0x41, 1, 97]).fields false = [] := by decide +kernel
 
 end H2V.Lemmas.ConnHttpP
